@@ -424,6 +424,9 @@ func c10RunBackup(cs c10case) (obs string, fails []string) {
 			fails = append(fails, fmt.Sprintf("untruthful-result|the call returned %q but no delivered request was answered with that reply: %v", res, att))
 		}
 	}
+	if len(att) == 1 && strings.Contains(att[0], ":ok") && !strings.HasPrefix(res, "ok:") && res != "hang" {
+		fails = append(fails, fmt.Sprintf("untruthful-result|the only delivered request (%s) was answered successfully, yet the call returned %q", att[0], res))
+	}
 	if len(att) == 0 && strings.HasPrefix(res, "ok") {
 		fails = append(fails, "untruthful-result|success although no request was delivered")
 	}
